@@ -97,6 +97,7 @@ def build_specs(basic_nodes: dict, basic_marks: dict, list_nodes: dict) -> dict:
                 "group": "inline",
                 "attrs": {"id": {}, "cfg": {"default": None}},
             },
+            "gadget": {"inline": True, "group": "inline", "attrs": {"opt": {"default": 1}, "req": {}}},
             "text": {"group": "inline"},
         },
         "marks": {
@@ -156,6 +157,8 @@ def mark_family_specs(orders=None):
                         "p_both": {"content": "inline*", "group": "block", "marks": "both"},
                         "p_grp": {"content": "inline*", "group": "block", "marks": "grp"},
                         "box": {"content": "block+", "group": "block"},
+                        "box_A": {"content": "block+", "group": "block", "marks": "A"},
+                        "box_grp": {"content": "block+", "group": "block", "marks": "grp C"},
                         "text": {"group": "inline"},
                         "atom": {"inline": True, "group": "inline"},
                     }
